@@ -1,6 +1,7 @@
 (* Props_C02.v — C02: emission / direct-image spectra equal the documented layered thermal integral. *)
 From Coq Require Import Reals List Lra.
 From TV Require Import Num ListNum ListNumR Model_C01 Proofs_C01 Model_C02 Proofs_C02 Proofs_C02k.
+From TV Require Import NumIv Reflect.
 Import ListNotations.
 Local Open Scope R_scope.
 
@@ -79,3 +80,19 @@ Theorem C02_k_surface_as_coded : forall (d : list R) (kd : list (list R)) (ws : 
   @ksurface_coded R RTNum d kd ws m = @ksurface R RTNum d kd ws m.
 Proof. intros. apply ksurface_as_coded; assumption. Qed.
 Print Assumptions C02_k_surface_as_coded.
+
+(* ---- the executed (interval) instance encloses the real-number instance the theorems above are about:
+   Reflect.transfer, proved once for every straight-line kernel from the Interval library's correctness lemmas;
+   `defined` lists the side conditions of the real-number side (non-zero denominators, positive logarithm arguments) ---- *)
+Theorem C02_planck_enclosed : forall hI cI kI wI tI h c k w t,
+  encloses hI h -> encloses cI c -> encloses kI k -> encloses wI w -> encloses tI t ->
+  defined [h; c; k; w; t] planck_e ->
+  encloses (@planck I.type IvTNum hI cI kI wI tI) (@planck R RTNum h c k w t).
+Proof. exact planck_transfer. Qed.
+Print Assumptions C02_planck_enclosed.
+
+Theorem C02_eclipse_enclosed : forall aI bI cI dI a b c d,
+  encloses aI a -> encloses bI b -> encloses cI c -> encloses dI d -> defined [a; b; c; d] eclipse_e ->
+  encloses (@eclipse I.type IvTNum aI bI cI dI) (@eclipse R RTNum a b c d).
+Proof. exact eclipse_transfer. Qed.
+Print Assumptions C02_eclipse_enclosed.
